@@ -56,11 +56,10 @@ Layers == {l \in PlainLayers \cup ModeLayers : l.cmd \in CmdChoices(l.kind)}
 VARIABLES ph, txt, lay, aux
 vars == <<ph, txt, lay, aux>>
 Init == ph = "start" /\ txt = <<>> /\ lay = NoLay /\ aux = NoAux
-Grow(phase, alphabet, max) ==
-   \/ ph = "start" /\ ph' = phase /\ txt' = <<>> /\ UNCHANGED <<lay, aux>>
-   \/ ph = phase /\ Len(txt) < max /\ \E c \in alphabet : txt' = Append(txt, c) /\ UNCHANGED <<ph, lay, aux>>
-GrowDefine == Grow("dstr", DefAlphabet, MaxDefine)
-GrowGetter == Grow("gstr", GetAlphabet, MaxGetter)
+StartDefine == ph = "start" /\ ph' = "dstr" /\ txt' = <<>> /\ UNCHANGED <<lay, aux>>
+GrowDefine  == ph = "dstr" /\ Len(txt) < MaxDefine /\ \E c \in DefAlphabet : txt' = Append(txt, c) /\ UNCHANGED <<ph, lay, aux>>
+StartGetter == ph = "start" /\ ph' = "gstr" /\ txt' = <<>> /\ UNCHANGED <<lay, aux>>
+GrowGetter  == ph = "gstr" /\ Len(txt) < MaxGetter /\ \E c \in GetAlphabet : txt' = Append(txt, c) /\ UNCHANGED <<ph, lay, aux>>
 PickWord   == ph = "start" /\ ph' = "gword" /\ txt' \in BoolPool /\ UNCHANGED <<lay, aux>>
 PickLayer  == ph = "start" /\ ph' = "layer" /\ lay' \in Layers /\ UNCHANGED <<txt, aux>>
 StepLayer  == ph = "layer" /\ ~LayerDone(lay) /\ lay' = LayerStep(lay) /\ UNCHANGED <<ph, txt, aux>>
@@ -76,7 +75,7 @@ PickPath   == ph = "start" /\ ph' = "path" /\ UNCHANGED <<txt, lay>>
                       aux' = [NoAux EXCEPT !.cwd = c, !.d = d, !.p = [abs |-> pa, segs |-> IF pa THEN <<"r">> \o ps ELSE ps]]
 PickCouple == ph = "start" /\ ph' = "couple" /\ UNCHANGED <<txt, lay>>
                 /\ \E nf \in 0..3, no \in 0..3 : aux' = [NoAux EXCEPT !.nf = nf, !.no = no]
-Next == GrowDefine \/ GrowGetter \/ PickWord \/ PickLayer \/ StepLayer \/ PickForm \/ PickRender \/ PickPath \/ PickCouple
+Next == StartDefine \/ GrowDefine \/ StartGetter \/ GrowGetter \/ PickWord \/ PickLayer \/ StepLayer \/ PickForm \/ PickRender \/ PickPath \/ PickCouple
 Spec == Init /\ [][Next]_vars
 
 \* ---------------------------------------------------------------- layering laws
